@@ -182,6 +182,9 @@ pub struct GenCtx<'a> {
     pub families_by_type: Vec<Vec<usize>>,
     /// families that contain a state pump (used only by the deep_pump mode)
     pub pump_families: Vec<usize>,
+    /// cheap ops in kind-interleaved order (first every kind's first op, then every kind's second
+    /// op, ...): the walk of the systematic medium-haul scenarios
+    pub haul_order: Vec<u32>,
     /// hash of an op's key -> pool index (to find the family of an op inside a scenario)
     pub key_ix: std::collections::HashMap<u64, u32>,
     /// family id -> usable, valid, not-big members
@@ -254,6 +257,14 @@ impl<'a> GenCtx<'a> {
         let pump_families: Vec<usize> = by_type.remove(&b'n').unwrap_or_default();
         let families_by_type: Vec<Vec<usize>> = by_type.into_values().collect();
         let small_families: Vec<Vec<u32>> = families.iter().filter(|f| f.iter().all(|i| !pool.ops[*i as usize].op.is_big())).cloned().collect();
+        let mut haul_order: Vec<u32> = Vec::new();
+        for r in 0..80usize {
+            for q in &quick_by_kind {
+                if let Some(ix) = q.get(r) {
+                    haul_order.push(*ix);
+                }
+            }
+        }
         let mut key_ix = std::collections::HashMap::new();
         let mut family_members: std::collections::HashMap<u32, Vec<u32>> = std::collections::HashMap::new();
         for (i, p) in pool.ops.iter().enumerate() {
@@ -267,7 +278,7 @@ impl<'a> GenCtx<'a> {
                 family_members.entry(p.family).or_default().push(i as u32);
             }
         }
-        GenCtx { pool, refs, usable, by_group, poison_by_group, cheap, kinds, by_kind, quick_by_kind, tl_slot_ops, families, small_families, families_by_type, pump_families, key_ix, family_members }
+        GenCtx { pool, refs, usable, by_group, poison_by_group, cheap, kinds, by_kind, quick_by_kind, tl_slot_ops, families, small_families, families_by_type, pump_families, haul_order, key_ix, family_members }
     }
 }
 
@@ -329,6 +340,15 @@ fn weighted(rng: &mut Rng, w: &[u32]) -> usize {
 
 /// Seed -> scenario (pure function of the seed, the pool and the reference table).
 pub fn generate(g: &GenCtx, seed: u64) -> Scenario {
+    generate_at(g, seed, None)
+}
+
+/// `index`: position of the scenario in its batch, if it has one. It makes ONE choice systematic
+/// instead of random: every eighth scenario is a medium-haul scenario, and consecutive ones walk
+/// through the pool's cheap ops in kind-interleaved order, so that every kind (and up to dozens of
+/// its ops) is repeated 30-3000 times somewhere in every batch - a call-count threshold on one
+/// particular argument (mutant m4) is then met by construction, not by luck.
+pub fn generate_at(g: &GenCtx, seed: u64, index: Option<u64>) -> Scenario {
     let mut rng = Rng::new(derive(seed, 0x7363656e));
     let mut sc = Scenario {
         seed,
@@ -655,11 +675,25 @@ pub fn generate(g: &GenCtx, seed: u64) -> Scenario {
     }
     // medium-haul: one op of a uniformly chosen kind repeated 30..3000 times (process- or
     // thread-wide call-count thresholds, caches that fill up)
-    if rng.pct(12) {
+    let haul_now = {
+        let random = rng.pct(12);
+        match index {
+            Some(i) if !g.haul_order.is_empty() => i % 8 == 5,
+            _ => random,
+        }
+    };
+    if haul_now {
         let k = rng.below(g.quick_by_kind.len() as u64) as usize;
         if !g.quick_by_kind[k].is_empty() {
-            let ix = *rng.pick(&g.quick_by_kind[k]);
-            if g.pool.ops[ix as usize].poison.is_none() || poison_on {
+            let mut ix = *rng.pick(&g.quick_by_kind[k]);
+            let mut walked = false;
+            if let Some(i) = index {
+                if !g.haul_order.is_empty() {
+                    ix = g.haul_order[((i / 8) as usize) % g.haul_order.len()];
+                    walked = true;
+                }
+            }
+            if g.pool.ops[ix as usize].poison.is_none() || poison_on || walked {
                 let op = intern(&mut sc, ix);
                 let t = rng.below(sc.threads.len() as u64) as usize;
                 let at = rng.below(sc.threads[t].steps.len() as u64 + 1) as usize;
